@@ -208,7 +208,10 @@ class Ctx:
         shutil.rmtree(run, ignore_errors=True)
         if expect_fail:
             st["expected_to_fail"] = True
-            st["output_tail"] = out[-1500:]
+            # the verdict lines first: a long counterexample (its length varies between multi-worker
+            # runs) must not push "Invariant X is violated" out of what the callers inspect
+            verdict = [l for l in out.splitlines() if "violated" in l or l.startswith("Error:")]
+            st["output_tail"] = ("\n".join(verdict)[:1500] + "\n" + out[-1500:]).strip()
             return st
         if not ok:
             raise Undecided("TLC run %s did not complete cleanly:\n%s" % (cfg, out[-4000:]))
